@@ -371,3 +371,19 @@ example : Interleave ([T.mk [97] [T.mk [120, 46, 103, 111] []], T.mk [98] []].ma
 
 end Gtree
 
+namespace Gtree
+/-- **The per-root "exists already?" check passes at any moment of any schedule.**  Whatever the other workers
+    have executed so far (`done`: operations of the forest, every `Create` after its parent's `MkdirAll`, none of
+    them an operation of root `t`), every one of those operations has succeeded and `isExistRoot` of `t` in the
+    state they left says "does not exist" — so the worker of `t` goes on to create it (`pipeline_tree_mkdirer.go`). -/
+theorem C10_exists_check_passes_any_moment (f : Fmt) (exts : List Bytes) (ts : List Bytes) (roots : List T) (fs : FS)
+    (hts : GoodList ts) (hg : AllGoodL roots) (hd : DistinctL roots) (hc : fs.Closed)
+    (hnf : ∀ i < ts.length, notFile fs (key (ts.take (i + 1))))
+    (hnone : anyRootExists fs (key ts) (roots.map (growRoot f)) = false)
+    (done : List EOp) (hmem : ∀ op ∈ done, op ∈ opsKids exts ts roots) (hord : Ordered done)
+    (t : T) (ht : t ∈ roots) (hnot : ∀ op ∈ done, op ∉ opsTree exts ts t) :
+    ∃ s, runE fs done = (s, none) ∧ anyRootExists s (key ts) [growRoot f t] = false :=
+  exists_check_passes f exts ts roots fs hts hg hd hnf (nodes_absent f exts ts roots fs hts hg hc hnone)
+    done hmem hord t ht hnot
+end Gtree
+
